@@ -1507,3 +1507,22 @@ def rule_winnersmisc(text):
             apps.append(_app(rname, text, mm.start(), mm.end(), new, why))
             text = text[:mm.start()] + new + text[mm.end():]
     return text, apps
+
+
+def rule_chainmisc(text):
+    """successor-chain one-offs (record.rs)"""
+    apps = []
+    table = [
+        (r"(\w+)\s*\.\s*successor\s*\.\s*get\s*\(\s*\)\s*\.\s*cloned\s*\(\s*\)", r"\1.successor.get_cloned()", "R-oncelock", "shim: OnceLock::get().cloned() = a copy of the link if it was set"),
+    ]
+    for pat, rep, rname, why in table:
+        while True:
+            mm = re.search(pat, text)
+            if not mm:
+                break
+            new = mm.expand(rep)
+            apps.append(_app(rname, text, mm.start(), mm.end(), new, why))
+            text = text[:mm.start()] + new + text[mm.end():]
+    text, a = _method_to_fn(text, "max", "max_u64", "R-arith", "definition of Ord::max on u64 (verified shim)")
+    apps += a
+    return text, apps
